@@ -1320,3 +1320,65 @@ def unroll_literal_loops(modules, max_items=4):
                 ast.fix_missing_locations(fn)
                 log.append(('%s.%s' % (m.name, fn.name), [], 'loop over a literal sequence unrolled: %s' % '; '.join(changed)))
     return log
+
+
+# ----------------------------------------------------------------------------------------------- tail delegation to a fresh function
+
+def inline_tail_delegations(modules, baseline=None):
+    """`def deco(fn): return _fresh(fn, "CONST")` - a function whose whole body hands its own parameters and constants to a fresh module-level function (one that
+    may define closures, which the statement inliner leaves alone) - becomes the body of that function with the arguments written in.  The fresh function is
+    removed when nothing else refers to it."""
+    baseline = baseline if baseline is not None else baseline_names()
+    log = []
+    for m in modules.values():
+        fresh = {}
+        for st in m.tree.body:
+            if isinstance(st, ast.FunctionDef) and ('%s.%s' % (m.name, st.name)) not in baseline and not st.decorator_list:
+                a = st.args
+                if a.vararg or a.kwarg or a.kwonlyargs or a.defaults or a.posonlyargs:
+                    continue
+                params = [x.arg for x in a.args]
+                stored = {n.id for n in ast.walk(st) if isinstance(n, ast.Name) and isinstance(n.ctx, (ast.Store, ast.Del))}
+                inner_params = {x.arg for d in ast.walk(st) if d is not st and isinstance(d, (ast.FunctionDef, ast.Lambda)) for x in d.args.args + d.args.kwonlyargs}
+                if set(params) & (stored | inner_params):
+                    continue
+                fresh[st.name] = (st, params)
+        if not fresh:
+            continue
+        uses = {k: 0 for k in fresh}
+        done = {k: 0 for k in fresh}
+        for n in ast.walk(m.tree):
+            if isinstance(n, ast.Name) and n.id in fresh and isinstance(n.ctx, ast.Load):
+                uses[n.id] += 1
+        for caller in [n for n in ast.walk(m.tree) if isinstance(n, ast.FunctionDef)]:
+            body = list(caller.body)
+            if body and isinstance(body[0], ast.Expr) and isinstance(body[0].value, ast.Constant) and isinstance(body[0].value.value, str):
+                body = body[1:]
+            if len(body) != 1 or not isinstance(body[0], ast.Return) or not isinstance(body[0].value, ast.Call):
+                continue
+            c = body[0].value
+            if not (isinstance(c.func, ast.Name) and c.func.id in fresh) or c.keywords or caller.name == c.func.id:
+                continue
+            fdef, params = fresh[c.func.id]
+            cparams = {x.arg for x in caller.args.posonlyargs + caller.args.args + caller.args.kwonlyargs}
+            if len(c.args) != len(params) or not all(isinstance(x, ast.Constant) or (isinstance(x, ast.Name) and x.id in cparams) for x in c.args):
+                continue
+            mapping, ren = {}, {}
+            for p, x in zip(params, c.args):
+                if isinstance(x, ast.Constant):
+                    mapping[p] = x
+                elif x.id != p:
+                    ren[p] = x.id
+            new_body = [Rename(ren, mapping).visit(copy.deepcopy(x)) for x in fdef.body]
+            if new_body and isinstance(new_body[0], ast.Expr) and isinstance(new_body[0].value, ast.Constant) and isinstance(new_body[0].value.value, str):
+                new_body = new_body[1:]
+            caller.body = new_body or [ast.Pass()]
+            ast.fix_missing_locations(caller)
+            done[c.func.id] += 1
+        for k, (fdef, params) in fresh.items():
+            if done[k] and done[k] == uses[k]:
+                m.tree.body.remove(fdef)
+                log.append(('%s.%s' % (m.name, k), ['<%d callers>' % done[k]], 'tail delegation written out'))
+            elif done[k]:
+                log.append(('%s.%s' % (m.name, k), [], 'tail delegation written out in %d of %d uses' % (done[k], uses[k])))
+    return log
